@@ -4,6 +4,7 @@ import PikaVerif.Lemmas.RwProg
 import PikaVerif.Lemmas.RwSolo
 import PikaVerif.Lemmas.RwMax
 import PikaVerif.Lemmas.RwRetry
+import PikaVerif.Lemmas.RwThreads
 /-!
 # C04r — termination of async_rw_mutex programs and final states of maximal runs (follow-up of C04)
 
@@ -40,6 +41,10 @@ loop fail once).  So the **only unbounded stutter is the spurious failure of
   made, every access granted exactly once and released, every shared state destroyed with
   reference count zero and the value destroyed (`C04r_final_state`); along the run the grants follow
   the request order of the groups (`C04r_run_order`).
+* Per-thread operation lists (`Rw.TSt`, `Lemmas/RwThreads.lean`: thread `t` invokes `prog t` in order, an
+  operation the model does not accept yet waits) are restrictions of these runs; their bound is
+  `C04r_thread_program_bounded`.  `C04r_quiescent_final` is the final-state theorem for any accepted
+  log of the model whose last state is quiescent.
 * The destruction of the value happens at most once, only after every access has been released and
   every shared state destroyed, and is the **last event** of the run (`C04r_value_destroyed_last`).
 * After a release, the releasing thread running alone finishes every `done()` it is in - the
@@ -168,6 +173,35 @@ theorem C04r_final_state (kinds : List Bool) (c w r : Nat) (log : List Ev) (p : 
   rw [hreq] at hn
   simpa [pinit, init] using hn
 
+/-- **Final states, model level.**  The same for any accepted log of the model (no program
+    needed): a reachable state in which no step of the implementation, no start / drop of a sender,
+    no release of a wrapper and no value destructor is enabled and whose mutex is destroyed
+    (`Rw.Quiescent`) has every access granted exactly once and released, every shared state
+    destroyed and the value destroyed. -/
+theorem C04r_quiescent_final (log : List Ev) (s : St) (h : runLog step init log = some s)
+    (hq : Quiescent s) :
+    (∀ a, a < s.na → s.acc a = .released ∧ s.grants a = 1) ∧
+    (∀ g, g < s.ng → s.dead g = true ∧ s.rc g = 0 ∧ s.head g = none ∧ ∃ t, s.dn g = .drain t []) ∧
+    s.vfreed = true :=
+  final_of_quiescent s ⟨log, h⟩ hq
+
+/-- **Per-thread programs.**  `n` threads, thread `t` invokes the operations of `prog t` in that
+    order (`Rw.TSt`, `Rw.tstep`, `Lemmas/RwThreads.lean`; an operation the model does not accept yet
+    waits; steps of the implementation are free).  Every accepted log is an accepted log of the
+    model, and has at most `boundT = 2 + Σ opCost` (7 per request, 2 per copy, 1 per value access)
+    events that are not CAS retries, at most `boundT + na²` that are not spurious CAS failures. -/
+theorem C04r_thread_program_bounded (n : Nat) (prog : Nat → List Op) (log : List Ev) (p : TSt)
+    (h : runLog tstep (tinit n prog) log = some p) :
+    runLog step init log = some p.s ∧ log.length ≤ boundT n prog + retries log ∧
+    log.length ≤ boundT n prog + p.s.na * p.s.na + (retries log - reals init log) := by
+  have hs := runLog_tstep_step log _ p h
+  have h1 := runLog_phiT log _ p inv_init h
+  have h2 := costs_retries log
+  rw [phiT_tinit] at h1
+  have h3 := reals_bound log p.s hs
+  have h4 := reals_le_retries log init
+  exact ⟨hs, by omega, by omega⟩
+
 /-- **Grants follow the request order along the run.**  At every point of a program run: once an
     access has been granted, every access of every earlier group (in particular every earlier
     read-write access, and every access requested before an earlier read-write access) has been
@@ -248,6 +282,16 @@ example : ∃ p, runLog pstep (pinit [true, false, false, true] 1 1 1) runEx = s
     exchange on the last shared state and the continuation of the detached access 3 - and
     `soloRank` is 2 -/
 example : C04.reaches (runEx.take 25) (fun s => soloRank s == 2 && s.acc 3 == .queued true) = true := by decide
+
+/-- `runEx` as a run of a per-thread program: thread 0 owns the mutex -/
+def progEx : Nat → List Op
+  | 0 => [.req true, .req false, .req false, .req true, .destroy, .start 2 false, .copy 2, .rel 2]
+  | 1 => [.start 0 false, .write 0, .rel 0]
+  | 2 => [.start 1 false, .readv 1, .rel 1]
+  | 3 => [.start 3 true, .rel 2]
+  | _ => []
+
+example : (runLog tstep (tinit 4 progEx) runEx).isSome = true ∧ boundT 4 progEx = 34 := by decide
 
 /-- a real CAS retry: 1 and 2 are reads of one group behind the held read-write access 0; both load
     the empty open queue, 2 pushes first, the CAS of 1 fails because the head moved (class 1 = an
